@@ -18,6 +18,7 @@
 #include <gnu_gama/local/acord/acordhdiff.h>
 #include <gnu_gama/local/acord/acordvector.h>
 #include <gnu_gama/local/acord/acordzderived.h>
+#include <gnu_gama/local/acord/acordintersection.h>
 #undef private
 #undef protected
 #include <gnu_gama/local/median/g2d_cogo.h>
@@ -372,6 +373,11 @@ static int run_acord(const vector<string>& t)
       else if (r == "dy") add(new Ydiff(f, to, v));
       else add(new Zdiff(f, to, v));
       i += 4;
+    } else if (cl && r == "ang" && i + 4 < t.size()) {
+      const string &f = t[i + 1], &bs = t[i + 2], &fs = t[i + 3]; double v = num(t[i + 4]);
+      note(f); note(bs); note(fs);
+      add(new Angle(f, bs, fs, v));
+      i += 5;
     } else if (cl && (r == "sd" || r == "za") && i + 5 < t.size()) {
       const string &f = t[i + 1], &to = t[i + 2]; double v = num(t[i + 3]);
       note(f); note(to);
@@ -387,6 +393,9 @@ static int run_acord(const vector<string>& t)
   else if (alg == "hdiff") a.reset(new AcordHdiff(&ac));
   else if (alg == "vector") a.reset(new AcordVector(&ac));
   else if (alg == "zderived") a.reset(new AcordZderived(&ac));
+  // the constructor of AcordIntersection builds its member ApproximateCoordinates with the public constructor,
+  // which resets the static small-angle limit to 0.15: every case starts from the same static state
+  else if (alg == "intersection") a.reset(new AcordIntersection(&ac));
   else { std::cout << "bad-op\n"; return 0; }
   for (int k = 0; k < reps; k++) {
     a->execute();
@@ -408,6 +417,16 @@ static int run_acord(const vector<string>& t)
     std::cout << "pt " << id << " " << (p.test_xy() ? 1 : 0) << " " << vp::hex(p.test_xy() ? p.x() : 0) << " "
               << vp::hex(p.test_xy() ? p.y() : 0) << " " << (p.test_z() ? 1 : 0) << " " << vp::hex(p.test_z() ? p.z() : 0)
               << " " << ac.missing_xy_.count(PointID(id)) << " " << ac.missing_z_.count(PointID(id)) << "\n";
+  }
+  if (alg == "intersection") {
+    // Orientation::add_all (run by every ApproxPoint::reset) writes the orientation of the real stand-points
+    int k = 0;
+    for (auto c : OD.clusters) {
+      if (auto sp = dynamic_cast<StandPoint*>(c))
+        std::cout << "ori " << k << " " << (sp->test_orientation() ? 1 : 0) << " "
+                  << vp::hex(sp->test_orientation() ? sp->orientation() : 0) << "\n";
+      k++;
+    }
   }
   std::cout << "completed " << (a->completed() ? 1 : 0) << "\n";
   return 0;
